@@ -123,4 +123,16 @@ def evalDecimal (s : Str) : Option (Bool × Nat × Int) :=
       (digitsVal ed 0).map fun e => (neg, m, (if eneg then - (e : Int) else (e : Int)) - (fp.length : Int))
     | _ => none
 
+/-! ### the domain on which the Lingo string literal is right (complement of findings F15–F17) -/
+
+/-- a byte that `escape_string` leaves as it is (printable ASCII other than the backslash) or that
+    `replace_chars_with_lingo_constants` turns into a named constant (BACKSPACE ENTER RETURN TAB; QUOTE is printable) -/
+def lingoSafeByte (b : UInt8) : Bool :=
+  let n := b.toNat
+  (32 ≤ n && n < 127 && n != 92) || n == 8 || n == 3 || n == 13 || n == 9
+
+def LingoSafe (bs : Bytes) : Prop := ∀ b ∈ bs, lingoSafeByte b = true
+
+instance (bs : Bytes) : Decidable (LingoSafe bs) := by unfold LingoSafe; infer_instance
+
 end Drx.Lscr
